@@ -21,7 +21,8 @@ def ob(name, nop, lowbits, **kw):
     return o
 OBLIGATIONS = [
     ob('queue_op2_oid2', 2, 4, defs=['NOP=2', 'NOID=2', 'LOWFIX'], bounds='2 operations, 2 oids with fixed distinct low 4 bits and symbolic upper 60 bits, 2 users'),
-    ob('queue_op3', 3, 4, defs=['NOP=3', 'LOWFIX'], bounds='3 operations, 3 oids with fixed distinct low 4 bits (slots 1,4,7) and symbolic upper 60 bits, 2 users'),
+    ob('queue_op3_oid2', 3, 4, defs=['NOP=3', 'NOID=2', 'LOWFIX'], bounds='3 operations, 2 oids with fixed distinct low 4 bits and symbolic upper 60 bits, 2 users', timeout=1800, mem_gb=30),
+    ob('queue_op3', 3, 4, defs=['NOP=3', 'LOWFIX'], bounds='3 operations, 3 oids with fixed distinct low 4 bits (slots 1,4,7) and symbolic upper 60 bits, 2 users', tiers=('thorough',), timeout=3400, mem_gb=40),
     ob('queue_op4', 4, 4, defs=['NOP=4', 'LOWFIX'], bounds='4 operations, same oids', tiers=('thorough',), timeout=3400, mem_gb=30),
     ob('queue_op3_anylow', 3, 4, bounds='3 operations, 3 oids differing within their low 4 bits (no table growth)', tiers=('thorough',), timeout=3400, mem_gb=40),
     ob('table_growth', 1, 4, defs=['NOP=1', 'RESIZE=7', 'TABMAX=256'], bounds='two oids sharing their low 4..7 bits: table grows to 32..256 slots', timeout=3400, mem_gb=40, tiers=('thorough',),
